@@ -162,7 +162,8 @@ class Check:
         self.exhaustive = None
         self.known = Known()
         self.replay_dir = os.path.join(VERIF, 'replay', prop)
-        shutil.rmtree(self.replay_dir, ignore_errors=True)
+        if '--replay' not in sys.argv:      # a replay run must not delete the file it is replaying
+            shutil.rmtree(self.replay_dir, ignore_errors=True)
         os.makedirs(self.replay_dir, exist_ok=True)
         self.min_distinct = 2
 
